@@ -533,6 +533,18 @@ RequestsRoundTrip ==
              Last.exp.unary = Pos(1, 1) /\ Last.exp.payload = "same" /\ Last.exp.rewrap = "same"
       ]_vars
 
+\* what the writers put on the wire (decoded independently of the readers)
+RangeOf(q) == {q[i] : i \in 1..Len(q)}
+WritersFrame ==
+    [][ /\ IsStep("WriteRequest") =>
+             /\ Last.exp.w_ok /\ Last.exp.w_batches = 1 /\ Last.exp.w_eos /\ Last.exp.w_rv = "1"
+             /\ {"vgi_rpc.method", "vgi_rpc.request_version"} \subseteq RangeOf(Last.exp.w_keys)
+             /\ ("vgi_rpc.protocol_version" \in RangeOf(Last.exp.w_keys)) <=> (Last.args.v # "none")
+        /\ IsStep("WriteUnaryResult") =>
+             /\ Last.exp.w_ok <=> (Last.args.env \in {"result_bin", "other_bin"})
+             /\ Last.exp.w_batches = (IF Last.exp.w_ok THEN 1 ELSE 0)
+      ]_vars
+
 NeverPanics ==
     [][ IsStep("Malformed") => Last.exp.panics = 0 /\ Last.exp.fatal_alloc = 0 /\ Last.exp.fatal_other = 0 /\ Last.exp.misread = 0 /\ Last.exp.junk_accepted = 0 ]_vars
 
